@@ -91,16 +91,21 @@ def _flat(d):
     return out
 
 
+def _same(a, b):
+    """Bit-equality of two flat statistics, NaN entries (e.g. an empty cluster of the mixture model) compared as equal."""
+    return a.shape == b.shape and torch.equal(a.isnan(), b.isnan()) and torch.equal(torch.nan_to_num(a), torch.nan_to_num(b))
+
+
 def observe_combination(prev_S, s_k, S, power):
     """Observed facts about S_k: memoryless?, step index m, consistency of all components with that step."""
     fs, fS = _flat(s_k), _flat(S)
-    memoryless = "yes" if all(torch.equal(fs[k], fS[k]) for k in fS) else "no"
+    memoryless = "yes" if all(_same(fs[k], fS[k]) for k in fS) else "no"
     if prev_S is None:
         return memoryless, 0, True
     fP = _flat(prev_S)
     if memoryless == "yes":
         # if the new statistics equal the previous averaged ones, both rules give the same result: not observable
-        if all(torch.equal(fs[k], fP[k]) for k in fS):
+        if all(_same(fs[k], fP[k]) for k in fS):
             return "amb", -1, True
         return memoryless, 0, True
     # component with the largest relative change between s_k and S_{k-1}
